@@ -423,6 +423,7 @@ func cmdRun(args []string) int {
 			runs[i] = h
 			if *verbose {
 				fmt.Printf("  %-28s %6.1fs states=%d merges=%d oblig=%d/%d paths=%d ends=%v cex=%d incon=%d\n", sp.Name, h.Wall, h.States, h.Merges, h.Discharged, h.Obligations, h.Paths, h.EndKinds, len(h.Cex), len(h.Incon))
+				fmt.Printf("    solver: queries=%v time=%v raced=%d intenc-fail=%d %v\n", h.Stats.Queries, roundMap(h.Stats.Time), h.Stats.Raced, h.Stats.IntEncFail, h.Stats.IntEncWhy)
 			}
 		}(i, sp)
 	}
